@@ -910,7 +910,7 @@ func barePermissionOnRequest(c *Ctx, rule string) {
 				case *ssa.MapUpdate:
 					if model.LoadedPolicyField(x.Map) == set {
 						what = set
-						if !derivesFromParam(x.Key) {
+						if !derivesFromParam(x.Key, func(g *ssa.Global) bool { _, ok := model.ConstSlices(c.P)[g]; return ok }) {
 							// a fixed name (a constant, or an element of a list of constants built in this function): the
 							// default vocabulary, whose content C04.R1 compares with the documented list
 							what = ""
@@ -1036,7 +1036,7 @@ func barePermissionOnRequest(c *Ctx, rule string) {
 
 // derivesFromParam: following operands (bounded), v can depend on a parameter of its function, on a free variable, on
 // a package-level variable or on the result of a call — i.e. on anything that is not fixed by the function's own text.
-func derivesFromParam(v ssa.Value) bool {
+func derivesFromParam(v ssa.Value, constGlobal func(*ssa.Global) bool) bool {
 	seen := map[ssa.Value]bool{}
 	var walk func(v ssa.Value, d int) bool
 	walk = func(v ssa.Value, d int) bool {
@@ -1050,7 +1050,10 @@ func derivesFromParam(v ssa.Value) bool {
 		switch x := v.(type) {
 		case *ssa.Const:
 			return false
-		case *ssa.Parameter, *ssa.FreeVar, *ssa.Global, *ssa.Call, *ssa.Lookup, *ssa.Next, *ssa.TypeAssert, *ssa.MakeClosure:
+		case *ssa.Global:
+			// a package-level list of constants that is only ever read is as fixed as a literal
+			return constGlobal == nil || !constGlobal(x)
+		case *ssa.Parameter, *ssa.FreeVar, *ssa.Call, *ssa.Lookup, *ssa.Next, *ssa.TypeAssert, *ssa.MakeClosure:
 			return true
 		case *ssa.Alloc:
 			// a local: what was stored into it (or into its elements)
